@@ -59,7 +59,10 @@ var ctValue = map[string]string{
 	"text-json-param": "text/plain; application/json", "multipart-json-boundary": "multipart/form-data; boundary=application/json",
 }
 
-const glToken = "verifc11"
+// glToken is the value of the GL-inet token cookie; its file is private to this
+// process (every shard writes and removes its own), so that neither a shard
+// that finishes early nor another run of this check takes it away.
+var glToken = fmt.Sprintf("verifc11p%d", os.Getpid())
 
 // writeGLToken creates /tmp/gl_token_<glToken> holding the current time in the
 // format the GL-Inet integration reads (4 bytes, native byte order).
